@@ -305,10 +305,20 @@ def monitor_c05(c):
                 prev = prev_state(c, i)
                 if not same_except_queue(prev, o["state"]):
                     return i, "altered record (%s) changed replay / record-number / key state" % s["tag"]
-        if s["tag"] == "genuine" and s["pl"] >= 0 and s["auth"] == 1 and i > 0 and c["steps"][i - 1]["tag"].startswith("mutant:"):
-            # the genuine record behind its mutants is still accepted (unless the script moved the window past it)
-            pass
+        if (c["scen"].startswith("mutation") and s["tag"] == "genuine" and s["pl"] >= 0 and s["auth"] == 1 and i > 0
+                and c["steps"][i - 1]["tag"].startswith("mutant:") and not c["steps"][i - 1]["obs"]["closed"]):
+            # the genuine record behind its mutants is still accepted (the script keeps it inside the window)
+            want = c["written"][s["pl"]] if s["pl"] < len(c["written"]) else None
+            if want is not None and want not in delivered_before(c, i) and o["delivered"] != [want]:
+                return i, "genuine record not delivered after its altered copies"
     return None
+
+
+def delivered_before(c, i):
+    out = set()
+    for s in c["steps"][:i]:
+        out.update(s["obs"]["delivered"])
+    return out
 
 
 def prev_state(c, i):
@@ -391,6 +401,9 @@ def run_e2e(chk, prop):
                             c["variant"], c["scen"], c["side"], si, c["steps"][si]["tag"] if si >= 0 else "?"),
                         {"case": shrink(c, si) if si >= 0 else c, "model": dbg,
                          "correspondence": "Rec.Rec13Run.e2e_ok"}, no_input=(m is None and not found))
+    if _cache.get("e2e_counted"):
+        return
+    _cache["e2e_counted"] = True
     nsteps = sum(len(c["steps"]) for c in cases)
     keys, tags = [], {}
     for c in cases:
